@@ -33,6 +33,17 @@
 (*  gafter             the caller's grid object read again after the call: *)
 (*                     k where position k still holds the coordinate the   *)
 (*                     grid was built with (exact equality), -2 otherwise  *)
+(*  aq, D              lines: line angle / 90 degrees when it is a multiple *)
+(*                     of 90 degrees (else 99) and the documented unit     *)
+(*                     direction round(16384 * (-sin t, cos t)), tabulated *)
+(*                     by the harness with math.sin / math.cos             *)
+(*  base, ops          history records: coordinates (units) the FIRST grid *)
+(*                     of the history was built with, and the derivations  *)
+(*                     << code, a, b, c >> the caller applied since        *)
+(*  recvu              coordinates the function received, in exact units   *)
+(*                     (99999 where not exactly on the lattice)            *)
+(*  derive records     dcoords: coordinates of the derived grid object;    *)
+(*                     inplace, pn, pafter: the parent read again          *)
 (*  hid, step          history records: several decorated calls on ONE     *)
 (*                     grid object; every call is judged against the       *)
 (*                     coordinates the grid was BUILT with (0 = single)    *)
@@ -50,6 +61,7 @@ Cl(n, b) == [n |-> n, ok |-> b]
 NIn(r) == Len(r.u)
 IsPairSeq(s) == \A k \in DOMAIN s : Len(s[k]) = 2
 Pair(a) == << a[1], a[2] >>
+PairsOf(q) == [k \in DOMAIN q |-> Pair(q[k])]
 
 \* ---- the input grid is an input: whatever the call hands to the function, the caller's object still holds the
 \* ---- coordinates it was built with (so the next decorated call on it pairs entry k with coordinate k again)
@@ -83,20 +95,56 @@ WrapCommon(r) == << CalledOnce(r), ListClause(r), KindClause(r), PairingClause(r
 Wrap2D(r) == IF r.gk = "g2d" THEN << MaskClause(r), NativeClause(r) >> ELSE << >>
 WrapVec(r) == IF r.api = "to_vector_yx" THEN << VectorGridClause(r) >> ELSE << >>
 
+\* ---- the coordinates of the grid a call is made on: the built ones, or what the caller derived from them ------------
+IsHist(r) == r.hid > 0
+Ops(r) == [j \in DOMAIN r.ops |-> << r.ops[j][1], r.ops[j][2], r.ops[j][3], r.ops[j][4] >>]
+OpsOk(r) == \A j \in DOMAIN r.ops : Len(r.ops[j]) = 4 /\ r.ops[j][1] \in 1 .. 4
+Cur1D(r) == DeriveAll(Coords1D(r.u, r.n1, r.s, r.o), Ops(r), FALSE)
+Cur2D(r) == DeriveAll(PairsOf(r.base), Ops(r), TRUE)
+\* a call that hands the grid itself to the function: it receives the coordinates of the grid it was called with
+DerivedReceived(r) ==
+    Cl("function-evaluated-at-the-coordinates-of-the-grid-it-was-called-with",
+       ~ IsHist(r) \/ (OpsOk(r) /\ IsPairSeq(r.base) /\ IsPairSeq(r.recvu) /\ PairsOf(r.recvu) = Cur2D(r)))
+\* a relocating call: the points it is judged at are those coordinates in the profile's frame (quarter turns r.cq[3])
+RotQ(p, t) == CASE t % 4 = 0 -> p [] t % 4 = 1 -> << p[2], -p[1] >> [] t % 4 = 2 -> << -p[1], -p[2] >> [] OTHER -> << -p[2], p[1] >>
+DerivedRelocated(r) ==
+    Cl("relocation-judged-at-the-coordinates-of-the-grid-it-was-called-with",
+       ~ IsHist(r) \/ (OpsOk(r) /\ IsPairSeq(r.base) /\ IsPairSeq(r.pt) /\ Len(r.cq) = 3 /\ r.cq[3] \in 0 .. 3
+                        /\ Len(Cur2D(r)) = Len(r.pt)
+                        /\ \A k \in DOMAIN r.pt : Pair(r.pt[k]) = RotQ(Sub(Cur2D(r)[k], << r.cq[1], r.cq[2] >>), r.cq[3])))
+
 \* ---- lines -------------------------------------------------------------------
-PairsOf(q) == [k \in DOMAIN q |-> Pair(q[k])]
+\* the tabulated direction is the documented one: exact for multiples of 90 degrees, a unit vector otherwise
+DirOk(r) == /\ Len(r.D) = 2 /\ IsUnit(Pair(r.D))
+            /\ r.aq # 99 => Pair(r.D) = Scal(DS, QuarterDir(r.aq))
 Line1DClause(r) ==
     Cl("1d-grid-evaluated-on-projected-line-point-k-at-coordinate-k",
-       /\ r.s > 0 /\ r.s % 2 = 0 /\ r.S > 0 /\ IsPairSeq(r.q)
+       /\ r.s > 0 /\ r.s % 2 = 0 /\ r.S > 0 /\ IsPairSeq(r.q) /\ OpsOk(r)
        /\ Len(r.q) = NIn(r)
-       /\ r.rid = Iota(NIn(r))          \* pairwise distinct points (tags are fresh, in order of first appearance)
-       /\ OnLine(PairsOf(r.q), <<0, 0>>, Coords1D(r.u, r.n1, r.s, r.o), r.S))
+       /\ Len(r.rid) = NIn(r)           \* (equal coordinates -- possible after an item assignment -- share a tag)
+       /\ OnLine(PairsOf(r.q), <<0, 0>>, Cur1D(r), r.S))
+Line1DDirection(r) ==
+    Cl("1d-grid-projected-along-the-documented-direction",
+       /\ r.S > 0 /\ IsPairSeq(r.q) /\ OpsOk(r) /\ DirOk(r)
+       /\ OnRay(PairsOf(r.q), <<0, 0>>, Cur1D(r), r.S, Pair(r.D)))
 Ray2DClause(r) ==
     Cl("2d-grid-projected-on-one-ray-from-centre-spaced-by-pixel-scale",
        /\ r.s > 0 /\ r.S > 0 /\ IsPairSeq(r.q) /\ Len(r.c) = 2
        /\ Len(r.q) >= 1
        /\ r.rid = Iota(Len(r.q))
        /\ \E k0 \in {0, 1} : OnLine(PairsOf(r.q), Pair(r.c), ProjXs(Len(r.q), r.s, k0), r.S))
+Ray2DDirection(r) ==
+    Cl("2d-grid-projected-along-the-documented-direction",
+       /\ r.s > 0 /\ r.S > 0 /\ IsPairSeq(r.q) /\ Len(r.c) = 2 /\ Len(r.q) >= 1 /\ DirOk(r)
+       /\ \E k0 \in {0, 1} : OnRay(PairsOf(r.q), Pair(r.c), ProjXs(Len(r.q), r.s, k0), r.S, Pair(r.D)))
+
+\* ---- the caller derives a grid ------------------------------------------------------
+DeriveClauses(r) ==
+    << Cl("derived-grid-holds-the-derived-coordinates",
+          /\ OpsOk(r) /\ Len(r.ops) >= 1
+          /\ IF r.gk = "g1d" THEN r.dcoords = Cur1D(r)
+             ELSE IsPairSeq(r.base) /\ IsPairSeq(r.dcoords) /\ PairsOf(r.dcoords) = Cur2D(r)),
+       Cl("parent-grid-unchanged-by-deriving", r.inplace \/ r.pafter = Iota(r.pn)) >>
 
 \* ---- radial minimum ------------------------------------------------------------
 RelocGuard(r) == Len(r.pt) = NIn(r) /\ Len(r.q) = NIn(r) /\ Len(r.rid) = NIn(r) /\ IsPairSeq(r.pt) /\ IsPairSeq(r.q)
@@ -126,25 +174,26 @@ TransformClause(r) == Cl("frame-changed-exactly-once-unless-caller-did", r.tcoun
 
 \* ---- per call --------------------------------------------------------------------
 Clauses(r) ==
-    IF ~ InDomain(r.api, r.gk, r.rk) THEN << Cl("call-in-domain", FALSE) >>
+    IF r.api = "derive" THEN (IF r.raised THEN << Cl("call-returns", FALSE) >> ELSE DeriveClauses(r))
+    ELSE IF ~ InDomain(r.api, r.gk, r.rk) THEN << Cl("call-in-domain", FALSE) >>
     ELSE IF r.raised THEN << Cl("call-returns", FALSE) >>
     ELSE << GridUnchanged(r) >> \o
     (CASE r.api \in {"to_array", "to_grid", "to_vector_yx"} /\ r.gk \in {"g2d", "irr"} ->
-           << ReceivedInput(r) >> \o WrapCommon(r) \o Wrap2D(r) \o WrapVec(r)
+           << ReceivedInput(r), DerivedReceived(r) >> \o WrapCommon(r) \o Wrap2D(r) \o WrapVec(r)
       [] r.api \in {"to_array", "to_grid"} /\ r.gk = "g1d" ->
-           WrapCommon(r) \o << Line1DClause(r) >>
+           WrapCommon(r) \o << Line1DClause(r), Line1DDirection(r) >>
       [] r.api = "project" /\ r.gk = "irr" ->
-           << ReceivedInput(r) >> \o WrapCommon(r)
+           << ReceivedInput(r), DerivedReceived(r) >> \o WrapCommon(r)
       [] r.api = "project" /\ r.gk = "g1d" ->
-           WrapCommon(r) \o << Line1DClause(r) >>
+           WrapCommon(r) \o << Line1DClause(r), Line1DDirection(r) >>
       [] r.api = "project" /\ r.gk = "g2d" ->
-           WrapCommon(r) \o << Ray2DClause(r) >>
+           WrapCommon(r) \o << Ray2DClause(r), Ray2DDirection(r) >>
       [] r.api = "transform" ->
            << CalledOnce(r), TransformClause(r), ReceivedInput(r) >>
       [] r.api = "reloc" ->
-           << CalledOnce(r) >> \o RelocClauses(r)
+           << CalledOnce(r), DerivedRelocated(r) >> \o RelocClauses(r)
       [] r.api \in {"stack_array", "stack_grid"} ->
-           WrapCommon(r) \o Wrap2D(r) \o << TransformClause(r) >> \o RelocClauses(r)
+           WrapCommon(r) \o Wrap2D(r) \o << TransformClause(r), DerivedRelocated(r) >> \o RelocClauses(r)
       [] OTHER -> << Cl("unknown-api", FALSE) >>)
 
 Failed(r) == SelectSeq(Clauses(r), LAMBDA c : ~ c.ok)
@@ -159,7 +208,9 @@ Sig(r) ==
     ELSE r.api \o "/" \o r.gk
 
 Want(r) ==
-    IF ~ InDomain(r.api, r.gk, r.rk) \/ r.raised THEN << >>
+    IF r.api = "derive" THEN (IF r.raised \/ ~ OpsOk(r) THEN << >>
+                              ELSE [coordinates |-> IF r.gk = "g1d" THEN Cur1D(r) ELSE Cur2D(r)])
+    ELSE IF ~ InDomain(r.api, r.gk, r.rk) \/ r.raised THEN << >>
     ELSE IF r.api \in {"reloc", "stack_array", "stack_grid"} /\ RelocGuard(r)
     THEN [radius2 |-> (r.R * r.S) * (r.R * r.S),
           got2 |-> [k \in DOMAIN r.q |-> IF InRange(Pair(r.q[k])) THEN Dot(Pair(r.q[k]), Pair(r.q[k])) ELSE -1],
